@@ -59,6 +59,8 @@ type Repo struct {
 	OnClose    func() // observation hook: called when the repository is closed
 	UserName   string
 	UserEmail  string
+	FetchOut   string // answer of FetchRefs
+	Fetches    int
 }
 
 func New() *Repo {
@@ -234,8 +236,12 @@ func (k *Keyring) Keys() ([]string, error) {
 
 // ---- RepoData ----
 
+// FetchRefs: a fetch is modelled by the harness setting the remote-tracking refs; the call
+// itself brings nothing more and answers FetchOut (what go-git says then is
+// "already up-to-date").
 func (r *Repo) FetchRefs(remote string, prefixes ...string) (string, error) {
-	return "", nil
+	r.Fetches++
+	return r.FetchOut, nil
 }
 func (r *Repo) PushRefs(remote string, prefixes ...string) (string, error) {
 	return "", nil
